@@ -1,9 +1,368 @@
-//! S4 / S5 — mutators and entropy adapters called directly (filled in below).
-pub fn cmd_mut(_args: &[String]) {
-    eprintln!("mut: not built yet");
-    std::process::exit(2);
+//! S4 — every `Mutator` method called directly; S5 — every `EntropySource` method of both
+//! sources.  One line per call; the Lean driver recomputes the Arbitrary-mode results from its
+//! exact port of `Unstructured` and evaluates the contract predicates on all results.
+
+use crate::{hex, Rng, MUTS};
+use pickle_fuzzer::verif;
+use pickle_fuzzer::{EmissionSnapshot, EntropySource, GenerationSource, Mutator};
+
+#[derive(Clone)]
+enum Ent {
+    Rand(u64),
+    Arb(Vec<u8>),
 }
-pub fn cmd_src(_args: &[String]) {
-    eprintln!("src: not built yet");
-    std::process::exit(2);
+
+impl Ent {
+    fn tag(&self) -> String {
+        match self {
+            Ent::Rand(s) => format!("rand:{}", s),
+            Ent::Arb(b) => format!("arb:{}", if b.is_empty() { "-".to_string() } else { hex(b) }),
+        }
+    }
+    fn with<R>(&self, f: impl FnOnce(&mut GenerationSource) -> R) -> (R, i64) {
+        match self {
+            Ent::Rand(s) => (verif::with_rand_source(*s, f), -1),
+            Ent::Arb(b) => {
+                let (r, left) = verif::with_arbitrary_source(b, f);
+                (r, left as i64)
+            }
+        }
+    }
+}
+
+fn sample_ent(rng: &mut Rng) -> Ent {
+    match rng.below(10) {
+        0 => Ent::Arb(vec![]),
+        1 => Ent::Rand(rng.next() % 100000),
+        2 => Ent::Rand(rng.next()),
+        3 => Ent::Arb(vec![0; 1 + rng.below(24) as usize]),
+        4 => Ent::Arb(vec![0xff; 1 + rng.below(24) as usize]),
+        5 => {
+            // a gate draw that is exactly 0.0 / -0.0 / NaN / > 1 followed by random bytes
+            let specials: [u64; 6] = [
+                0,
+                0x8000000000000000,
+                0x7ff8000000000000,
+                0x4000000000000000,
+                0xbff0000000000000,
+                0x3ff0000000000000,
+            ];
+            let mut b = specials[rng.below(6) as usize].to_le_bytes().to_vec();
+            let extra = rng.below(24) as usize;
+            b.extend(rng.bytes(extra));
+            Ent::Arb(b)
+        }
+        _ => {
+            let n = rng.below(40) as usize;
+            Ent::Arb(rng.bytes(n))
+        }
+    }
+}
+
+const I32_EDGE: [i32; 9] = [0, 1, -1, i32::MAX, i32::MIN, 2, -2, 0x7fff_fffe, i32::MIN + 1];
+const I64_EDGE: [i64; 9] = [0, 1, -1, i64::MAX, i64::MIN, 2, -2, i64::MAX - 1, i64::MIN + 1];
+const F64_EDGE: [u64; 8] = [
+    0,
+    0x8000000000000000,
+    0x3ff0000000000000,
+    0x7ff0000000000000,
+    0xfff0000000000000,
+    0x7ff8000000000000,
+    0x7fefffffffffffff,
+    0x0000000000000001,
+];
+const USIZE_EDGE: [usize; 8] = [0, 1, 2, 255, 256, 999, usize::MAX, usize::MAX - 1];
+
+fn sample_string(rng: &mut Rng) -> String {
+    let n = match rng.below(6) {
+        0 => 0,
+        1 => 1,
+        2 => 64,
+        _ => rng.below(65),
+    };
+    (0..n)
+        .map(|_| match rng.below(8) {
+            0 => 'é',
+            1 => '€',
+            2 => '😀',
+            3 => '\\',
+            4 => '\'',
+            5 => '\n',
+            _ => (32 + rng.below(95) as u8) as char,
+        })
+        .collect()
+}
+
+fn sample_bytes(rng: &mut Rng) -> Vec<u8> {
+    let n = match rng.below(6) {
+        0 => 0,
+        1 => 1,
+        2 => 64,
+        _ => rng.below(65),
+    } as usize;
+    rng.bytes(n)
+}
+
+fn opt<T>(o: Option<T>, f: impl Fn(&T) -> String) -> String {
+    match o {
+        None => "none".to_string(),
+        Some(v) => format!("some:{}", f(&v)),
+    }
+}
+
+fn hexs(s: &str) -> String {
+    if s.is_empty() {
+        "-".to_string()
+    } else {
+        hex(s.as_bytes())
+    }
+}
+fn hexb(b: &[u8]) -> String {
+    if b.is_empty() {
+        "-".to_string()
+    } else {
+        hex(b)
+    }
+}
+
+pub const MUT_NAMES: [&str; 7] = [
+    "bitflip",
+    "boundary",
+    "offbyone",
+    "stringlen",
+    "character",
+    "memoindex",
+    "typeconfusion",
+];
+
+#[allow(clippy::too_many_arguments)]
+fn one_call(
+    mi: usize,
+    unsafe_m: bool,
+    method: &str,
+    rate_bits: u64,
+    ent: &Ent,
+    rng: &mut Rng,
+    force_edge: Option<usize>,
+) -> String {
+    let m: Box<dyn Mutator> = MUTS[mi].create(unsafe_m);
+    let rate = f64::from_bits(rate_bits);
+    let pick = |rng: &mut Rng, n: usize| force_edge.map(|e| e % n).unwrap_or_else(|| rng.below(n as u64) as usize);
+    let (value, result, left) = match method {
+        "int" => {
+            let v = if rng.coin() || force_edge.is_some() { I32_EDGE[pick(rng, 9)] } else { rng.next() as i32 };
+            let (r, left) = ent.with(|s| m.mutate_int(v, s, rate));
+            (format!("{}", v), opt(r, |x| format!("{}", x)), left)
+        }
+        "long" => {
+            let v = if rng.coin() || force_edge.is_some() { I64_EDGE[pick(rng, 9)] } else { rng.next() as i64 };
+            let (r, left) = ent.with(|s| m.mutate_long(v, s, rate));
+            (format!("{}", v), opt(r, |x| format!("{}", x)), left)
+        }
+        "float" => {
+            let v = if rng.coin() || force_edge.is_some() { F64_EDGE[pick(rng, 8)] } else { rng.next() };
+            let (r, left) = ent.with(|s| m.mutate_float(f64::from_bits(v), s, rate));
+            (format!("{:016x}", v), opt(r, |x| format!("{:016x}", x.to_bits())), left)
+        }
+        "string" => {
+            let v = sample_string(rng);
+            let (r, left) = ent.with(|s| m.mutate_string(v.clone(), s, rate));
+            (hexs(&v), opt(r, |x| hexs(x)), left)
+        }
+        "bytes" => {
+            let v = sample_bytes(rng);
+            let (r, left) = ent.with(|s| m.mutate_bytes(v.clone(), s, rate));
+            (hexb(&v), opt(r, |x| hexb(x)), left)
+        }
+        "memo" => {
+            let v = if rng.coin() || force_edge.is_some() { USIZE_EDGE[pick(rng, 8)] } else { rng.below(2000) as usize };
+            let (r, left) = ent.with(|s| m.mutate_memo_index(v, s, rate));
+            (format!("{}", v), opt(r, |x| format!("{}", x)), left)
+        }
+        _ => {
+            // post_process on an output buffer whose last emission is `delta`
+            let plen = rng.below(6) as usize;
+            let prefix = rng.bytes(plen);
+            let deltas: [&[u8]; 9] = [
+                b"I42\n",
+                b"F0.5\n",
+                &[0x8c, 2, b'a', b'b'],
+                &[0x43, 1, 7],
+                &[0x5d],
+                &[0x4e],
+                &[0x88],
+                &[0x28],
+                &[],
+            ];
+            let delta = deltas[pick(rng, 9)].to_vec();
+            let mut out = prefix.clone();
+            out.extend_from_slice(&delta);
+            let snap = EmissionSnapshot {
+                stack_depth: 0,
+                output_len: prefix.len(),
+                memo_size: 0,
+                stack_delta: Vec::new(),
+                output_delta: delta.clone(),
+                memo_delta: Vec::new(),
+            };
+            let (r, left) = ent.with(|s| {
+                let changed = m.post_process(&snap, &mut out, s, rate);
+                (changed, out.clone())
+            });
+            (
+                format!("{}+{}", hexb(&prefix), hexb(&delta)),
+                format!("{}:{}", if r.0 { "changed" } else { "same" }, hexb(&r.1)),
+                left,
+            )
+        }
+    };
+    format!(
+        "mut kind={} unsafe={} method={} value={} rate={:016x} ent={} result={} left={}",
+        MUT_NAMES[mi],
+        unsafe_m as u8,
+        method,
+        value,
+        rate_bits,
+        ent.tag(),
+        result,
+        left
+    )
+}
+
+pub fn cmd_mut(args: &[String]) {
+    let n: u64 = crate::arg_val(args, "--cases", "2000").parse().unwrap();
+    let seed: u64 = crate::arg_val(args, "--seed", "1").parse().unwrap();
+    let mut rng = Rng(seed ^ 0x6d7574);
+    let methods = ["int", "long", "float", "string", "bytes", "memo", "post"];
+    let rates: [u64; 5] = [
+        0.0f64.to_bits(),
+        1.0f64.to_bits(),
+        0.5f64.to_bits(),
+        0.1f64.to_bits(),
+        0.9f64.to_bits(),
+    ];
+    // boundaries exhaustively: every mutator x numeric method x every edge value x rate {0,1}
+    // x {empty, zero, ff, random} entropy
+    for mi in 0..7 {
+        for method in ["int", "long", "float", "memo"] {
+            for e in 0..9 {
+                for r in 0..2 {
+                    for ent in [
+                        Ent::Arb(vec![]),
+                        Ent::Arb(vec![0; 20]),
+                        Ent::Arb(vec![0xff; 20]),
+                        Ent::Rand(e as u64),
+                    ] {
+                        println!("{}", one_call(mi, false, method, rates[r], &ent, &mut rng, Some(e)));
+                    }
+                }
+            }
+        }
+    }
+    for i in 0..n {
+        let mi = (i % 7) as usize;
+        let unsafe_m = rng.below(3) == 0;
+        let method = methods[rng.below(7) as usize];
+        let rate = match rng.below(3) {
+            0 => rates[0],
+            1 => rates[1],
+            _ => rates[2 + rng.below(3) as usize],
+        };
+        let ent = sample_ent(&mut rng);
+        println!("{}", one_call(mi, unsafe_m, method, rate, &ent, &mut rng, None));
+    }
+}
+
+const GRID: [usize; 12] = [
+    0,
+    1,
+    2,
+    3,
+    255,
+    256,
+    257,
+    65535,
+    65536,
+    1 << 32,
+    usize::MAX - 1,
+    usize::MAX,
+];
+
+fn src_call(method: &str, a: usize, b: usize, ent: &Ent) -> String {
+    let (r, left) = ent.with(|s| match method {
+        "choose_index" => format!("{}", s.choose_index(a)),
+        "gen_bool" => format!("{}", s.gen_bool() as u8),
+        "gen_u8" => format!("{}", s.gen_u8()),
+        "gen_u16" => format!("{}", s.gen_u16()),
+        "gen_u32" => format!("{}", s.gen_u32()),
+        "gen_i32" => format!("{}", s.gen_i32()),
+        "gen_i64" => format!("{}", s.gen_i64()),
+        "gen_f64" => format!("{:016x}", s.gen_f64().to_bits()),
+        "gen_range" => format!("{}", s.gen_range(a, b)),
+        "gen_bytes" => {
+            let v = s.gen_bytes(a);
+            if v.is_empty() {
+                "-".to_string()
+            } else {
+                hex(&v)
+            }
+        }
+        _ => format!("{}", s.gen_ascii_char() as u32),
+    });
+    format!("src method={} a={} b={} ent={} result={} left={}", method, a, b, ent.tag(), r, left)
+}
+
+pub fn cmd_src(args: &[String]) {
+    let n: u64 = crate::arg_val(args, "--cases", "2000").parse().unwrap();
+    let seed: u64 = crate::arg_val(args, "--seed", "1").parse().unwrap();
+    let exhaustive2 = args.iter().any(|a| a == "--exhaustive2");
+    let mut rng = Rng(seed ^ 0x737263);
+    let simple = [
+        "gen_bool",
+        "gen_u8",
+        "gen_u16",
+        "gen_u32",
+        "gen_i32",
+        "gen_i64",
+        "gen_f64",
+        "gen_ascii_char",
+    ];
+    // all byte strings of length <= 1 (and <= 2 with --exhaustive2) for the parameterless draws
+    // and for the parameterised ones on a reduced grid
+    let mut inputs: Vec<Vec<u8>> = vec![vec![]];
+    for x in 0..=255u8 {
+        inputs.push(vec![x]);
+    }
+    if exhaustive2 {
+        for x in 0..=255u8 {
+            for y in 0..=255u8 {
+                inputs.push(vec![x, y]);
+            }
+        }
+    }
+    for inp in &inputs {
+        let ent = Ent::Arb(inp.clone());
+        for m in simple {
+            println!("{}", src_call(m, 0, 0, &ent));
+        }
+        for &a in &[0usize, 1, 2, 3, 94, 255, 256, 257, 65536] {
+            println!("{}", src_call("choose_index", a, 0, &ent));
+            println!("{}", src_call("gen_range", a, 300, &ent));
+        }
+    }
+    // grid x sampled inputs (length 0..16) and PRNG states
+    for i in 0..n {
+        let ent = if i % 3 == 0 {
+            Ent::Rand(rng.next())
+        } else {
+            let len = rng.below(17) as usize;
+            Ent::Arb(rng.bytes(len))
+        };
+        let a = GRID[rng.below(12) as usize];
+        let b = GRID[rng.below(12) as usize];
+        println!("{}", src_call("choose_index", a, 0, &ent));
+        println!("{}", src_call("gen_range", a, b, &ent));
+        println!("{}", src_call("gen_bytes", (a % 70000).min(300), 0, &ent));
+        println!("{}", src_call(simple[rng.below(8) as usize], 0, 0, &ent));
+    }
 }
